@@ -416,29 +416,38 @@ impl QueryRouter {
         }
     }
 
-    /// Determines if a query is a mutation or not.
+    /// Determines if a query is a mutation or not: true if the query or any query nested
+    /// in it (CTE, subquery, derived table, branch of a set operation) writes or locks rows.
     fn is_mutation_query(q: &sqlparser::ast::Query) -> bool {
+        use core::ops::ControlFlow;
         use sqlparser::ast::*;
 
-        // Data-modifying CTEs: WITH x AS (INSERT ... RETURNING ...) SELECT ...
-        if let Some(with) = &q.with {
-            if with
-                .cte_tables
-                .iter()
-                .any(|cte| Self::is_mutation_query(&cte.query))
-            {
-                return true;
+        // INSERT / UPDATE bodies, SELECT ... INTO (creates a table), also below UNION etc.
+        fn body_writes(body: &SetExpr) -> bool {
+            match body {
+                SetExpr::Insert(_) | SetExpr::Update(_) => true,
+                SetExpr::Select(select) => select.into.is_some(),
+                SetExpr::SetOperation { left, right, .. } => body_writes(left) || body_writes(right),
+                // Nested queries are visited on their own.
+                _ => false,
             }
         }
 
-        match q.body.as_ref() {
-            SetExpr::Insert(_) => true,
-            SetExpr::Update(_) => true,
-            // SELECT ... INTO creates a table.
-            SetExpr::Select(select) => select.into.is_some(),
-            SetExpr::Query(q) => Self::is_mutation_query(q),
-            _ => false,
+        struct WriteVisitor;
+
+        impl Visitor for WriteVisitor {
+            type Break = ();
+
+            fn pre_visit_query(&mut self, query: &Query) -> ControlFlow<()> {
+                if !query.locks.is_empty() || body_writes(&query.body) {
+                    ControlFlow::Break(())
+                } else {
+                    ControlFlow::Continue(())
+                }
+            }
         }
+
+        q.visit(&mut WriteVisitor).is_break()
     }
 
     fn database_activity_cache(&self) -> Cache<String, DatabaseActivityState> {
@@ -493,6 +502,9 @@ impl QueryRouter {
         let mut primary_set_based_on_activity = false;
         let mut visited_write_statement = false;
         let mut prev_inferred_shard = None;
+        // Shard inference stops at the first problem, the role is still decided
+        // from every statement of the message.
+        let mut shard_error = None;
 
         if self.pool_settings.db_activity_based_routing {
             let db = self.pool_settings.db.clone();
@@ -533,20 +545,6 @@ impl QueryRouter {
                         }
                     }
 
-                    match &self.pool_settings.automatic_sharding_key {
-                        Some(_) => {
-                            // TODO: if we have multiple queries in the same message,
-                            // we can either split them and execute them individually
-                            // or discard shard selection. If they point to the same shard though,
-                            // we can let them through as-is.
-                            // This is basically building a database now :)
-                            let inferred_shard = self.infer_shard(query);
-                            self.handle_inferred_shard(inferred_shard, &mut prev_inferred_shard)?;
-                        }
-
-                        None => (),
-                    };
-
                     let has_locks = !query.locks.is_empty();
                     let has_mutation = Self::is_mutation_query(query);
 
@@ -561,6 +559,22 @@ impl QueryRouter {
                             true => None,                 // Any server role is fine in this case.
                         }
                     }
+
+                    match &self.pool_settings.automatic_sharding_key {
+                        Some(_) if shard_error.is_none() => {
+                            // TODO: if we have multiple queries in the same message,
+                            // we can either split them and execute them individually
+                            // or discard shard selection. If they point to the same shard though,
+                            // we can let them through as-is.
+                            // This is basically building a database now :)
+                            let inferred_shard = self.infer_shard(query);
+                            shard_error = self
+                                .handle_inferred_shard(inferred_shard, &mut prev_inferred_shard)
+                                .err();
+                        }
+
+                        _ => (),
+                    };
                 }
 
                 // Likely a write
@@ -572,25 +586,33 @@ impl QueryRouter {
                         self.update_mutation_cache_on_write(q);
                     }
 
+                    visited_write_statement = true;
+                    self.active_role = Some(Role::Primary);
+
                     match &self.pool_settings.automatic_sharding_key {
-                        Some(_) => {
+                        Some(_) if shard_error.is_none() => {
                             // TODO: similar to the above, if we have multiple queries in the
                             // same message, we can either split them and execute them individually
                             // or discard shard selection. If they point to the same shard though,
                             // we can let them through as-is.
-                            let inferred_shard = self.infer_shard_on_write(q)?;
-                            self.handle_inferred_shard(inferred_shard, &mut prev_inferred_shard)?;
+                            shard_error = match self.infer_shard_on_write(q) {
+                                Ok(inferred_shard) => self
+                                    .handle_inferred_shard(inferred_shard, &mut prev_inferred_shard)
+                                    .err(),
+                                Err(err) => Some(err),
+                            };
                         }
 
-                        None => (),
+                        _ => (),
                     };
-                    visited_write_statement = true;
-                    self.active_role = Some(Role::Primary);
                 }
             };
         }
 
-        Ok(())
+        match shard_error {
+            Some(err) => Err(err),
+            None => Ok(()),
+        }
     }
 
     fn handle_inferred_shard(
